@@ -300,3 +300,46 @@ Definition p_step (fuel : nat) (st : world * rsnap) (o : pop) : option (option v
   | PSetTS ts => (None, (w, mkRS ts None []))
   | PFinish t => (None, (mkWorld (w_keys w) (finish_tx (w_txns w) t), s))
   end.
+
+(* ---------------------------------------------------------------- (f) the buffer tier of BatchGetWithTier *)
+(* A pipelined transaction [own] has flushed part of its buffer into the store as locks.
+   BatchGetWithTier(keys, BatchGetBufferTier) sends BufferBatchGet{keys, version = own start ts}: the
+   store answers, for each key, the content of the lock that [own] holds on it — the flushed value, the
+   empty value for a flushed delete — and nothing for a key without such a lock; committed data and
+   locks of other transactions are not looked at, no lock is resolved, the snapshot cache is neither
+   consulted nor updated; region errors re-split like in the snapshot tier. *)
+Definition buf_val (own : N) (s : kstate) : option value :=
+  match ks_lock s with
+  | Some l => if l_start l =? own then
+                match l_kind l with LPut v => Some v | LDel => Some [] | LLock | LPess => None end
+              else None
+  | None => None
+  end.
+
+Fixpoint buf_serve (w : world) (own : N) (b : list key) : list (key * value) :=
+  match b with
+  | [] => []
+  | k :: r => match buf_val own (k_get (w_keys w) k) with
+              | Some v => (k, v) :: buf_serve w own r
+              | None => buf_serve w own r
+              end
+  end.
+
+Fixpoint bbuf (fuel : nat) (ev : nat -> bg_event) (i : nat) (w : world) (own : N)
+         (pend : list (list key)) (acc : list (key * value)) : option (list (key * value)) :=
+  match fuel with
+  | O => None
+  | S f =>
+      match pend with
+      | [] => Some acc
+      | b :: rest =>
+          match ev i with
+          | EvRegionErr L =>
+              bbuf f ev (S i) w own ((if one_region L b then [b] else group_keys L b) ++ rest) acc
+          | _ => bbuf f ev (S i) w own rest (acc ++ buf_serve w own b)
+          end
+      end
+  end.
+
+Definition buffer_batch_get (fuel : nat) (ev : nat -> bg_event) (L0 : layout) (w : world) (own : N) (keys : list key) :=
+  bbuf fuel ev 0 w own (group_keys L0 keys) [].
